@@ -456,4 +456,9 @@ theorem noh2cog_tree (p : Noh2Cog.P) (hg : p.geometry = 1 ∨ p.geometry = 2 ∨
   rw [massRes_congr_near h1 h2, momResP_congr_near h1 h2 h3, energyResE_congr_near h1 h2 h3 h4]
   exact ⟨noh2cog_L5_mass p r t hr ht, noh2cog_L5_momentum p r t ht, noh2cog_L5_energy p r t hr ht hρ hγ⟩
 
+/-- non-vacuity of the hypotheses of `noh_tree` (class defaults, r = 1, t = 1/2; shock at 1/6) -/
+example : ∃ p : Noh.P, ∃ r t : ℝ, 0 < r ∧ 0 ≤ t ∧ p.u0 < 0 ∧ r ≠ |p.u0| * t * (p.gamma - 1) / 2 := by
+  refine ⟨⟨5 / 3, 3, 1, -1⟩, 1, 1 / 2, by norm_num, by norm_num, by norm_num, ?_⟩
+  norm_num [abs_of_neg]
+
 end EPV.C01
